@@ -60,9 +60,17 @@ class Prop(BaseProp):
         def mkparam(r, uid, j, kind):
             core = f"pN{uid}Z{j}"
             fam = FAMILIES[pat[kind]]
-            form = r.choice(["id", "id", "id", "quoted", "ref", "bracket", "nomatch"])
+            form = r.choice(["id", "id", "id", "quoted", "ref", "bracket", "nomatch", "whole"])
             if form == "nomatch":
                 return core, core
+            if form == "whole" and pat[kind]:
+                # the pattern matches the whole parameter: what remains is the empty string
+                w = fam(r, "")
+                if w and w[0] not in "=[":
+                    return w, ""
+                return core, core
+            if form == "whole":
+                form = "id"
             w = fam(r, core)
             if form == "id":
                 return w, core
